@@ -31,6 +31,9 @@ CLAIMED = {
  'C14': ('M', 'symbolic execution of the MIR of the simd.rs kernels (sum/min/max: scalar 4-way unrolled, AVX2, and the dispatchers with symbolic feature detection) into Z3, one obligation set per concrete slice length with symbolic contents; AVX2 intrinsics as 4-lane IEEE operations, raw pointers as (slice, offset) with in-bounds obligations; native replay through the public kernels and, via cfg(varpulis_verif) hooks, the scalar kernels',
          'Solver-decided for every slice length 0..6 (quick) / 0..9 (thorough) — every residue of the 4-lane split on both sides of a full chunk: sum returns exactly the sum on the exact domain (integer-valued inputs |x| <= 2^20: a dropped, duplicated or mis-indexed element changes it), min/max return an element that bounds all elements for all non-NaN doubles, empty input gives no value, scalar and AVX2 targets agree, no out-of-bounds access and no arithmetic panic.',
          'PARTIAL claim: the numeric kernels under sum/avg/min/max only. Outside: floating-point rounding of general sums, the Aggregator apply / apply_refs / apply_columnar wrappers over events and the columnar buffer, avg/stddev/ema/first/last/count_distinct, NaN/missing handling of the callers. Sum kernels are checked on the exact integer domain (IEEE + = integer + below 2^53). Trusted: intrinsic models listed in evidence.', 'DESIGN.md §4 C14'),
+ 'C09': ('M', 'differential symbolic execution of the MIR of expr_to_sase_predicate (translation), eval_expr_with_functions (stream `.where`) and sase::eval_predicate / compare_values / values_equal / values_compare (sequence-step filter) into Z3 on the same symbolic event; every disagreement replayed natively through eval_filter_expr and a two-step SaseEngine',
+         'Solver-decided for the programs `x OP lit` and `not (x OP lit)`, OP in {==, !=, <, <=, >, >=}, lit an Int (|v| <= 2^53 and beyond, as separate classes), Float (all bit patterns), Str or Bool literal with symbolic payload, against an event whose field x is missing, Null, Int, Float, Str or Bool with symbolic payload: no event is accepted by the stream only, and none by the step only (two obligations per path pair, keyed by operator, operand classes and direction).  158 of the 840 classes are genuine disagreements and are listed as known findings (KNOWN-FINDING lines); the other classes are proved.',
+         'PARTIAL claim. Outside: and/or over comparisons (both sides compositional), filters that translate to Predicate::CompareRef / Predicate::Expr (cross-alias references, calls, arithmetic), string ordering beyond "one total order shared by both sides", 2-3 field expressions. Trusted: MIR dump + executor, Event::get modelled as returning the symbolic field on both sides.', 'DESIGN.md §4 C09'),
  'C34': ('M', 'symbolic execution of the MIR of event_type_matches, find_target_pipeline and ReplicaGroup::select_replica (varpulis-cluster) into Z3 with event types, patterns and pipeline names as terms of the string theory (unbounded length); native probe replay',
          'Solver-decided: event_type_matches equals its specification for ALL strings; find_target_pipeline returns the target of the first route in declaration order with a matching pattern, else the first pipeline, else None, for every table of <= 2 (thorough 3) routes x <= 2 patterns with symbolic strings; round-robin select_replica picks replica (counter mod n) and advances the counter by one from any counter value (so loads over any run differ by at most one until the counter wraps), and returns the pipeline name when there are no replicas.',
          'PARTIAL claim. Outside: key-hash stickiness and single-vs-batch key rendering (serde_json formatting + SipHash), coordinator resolve_inject_target / inject_batch wrappers, counter wrap at 2^64. Trusted: string-operation models (==, strip_suffix(char), starts_with), atomic fetch_add as read-then-add.', 'DESIGN.md §4 C34'),
